@@ -326,6 +326,17 @@ def s2_small(tier):
                    [{'c': 'AtMostKInARow', 'k': 2, 'factor': 'A', 'level': None}]):
             out.append(spec([A], cross(['A'], ['A'], cs), 'S2'))
             out.append(spec([A], cross(['A'], ['A'], cs + [{'c': 'MinimumTrials', 'k': size + 2}]), 'S2'))
+    # a weighted crossed factor together with an Exclude / an impossible combination that removes weighted combinations
+    Aw2 = basic('A', 2, [2, 1])
+    B3 = basic('B', 3)
+    fmx = {'A': Aw2, 'B': B3}
+    Wx = within('W', ['A', 'B'], fmx, same)
+    for rcc in (False, True):
+        for ex in ([{'c': 'Exclude', 'factor': 'B', 'level': 'b2'}], [{'c': 'Exclude', 'factor': 'A', 'level': 'a0'}],
+                   [{'c': 'Exclude', 'factor': 'B', 'level': 'b2'}, {'c': 'MinimumTrials', 'k': 7}]):
+            out.append(spec([Aw2, B3], cross(['A', 'B'], ['A', 'B'], ex, rcc), 'S2'))
+        out.append(spec([Aw2, B3, Wx], cross(['A', 'B', 'W'], ['A', 'W'], [], rcc), 'S2'))
+        out.append(spec([Aw2, B3, Wx], cross(['A', 'B', 'W'], ['A', 'W'], [{'c': 'Exclude', 'factor': 'W', 'level': 'w1'}], rcc), 'S2'))
     # a hidden weight factor (weighted, outside the crossing) under Merge / Repeat / MultiCrossBlock
     Aw = basic('A', 2, [2, 1])
     Bu = basic('B', 2)
@@ -589,6 +600,8 @@ def s6(tier):
                 if any(c.get('factor') not in have for c in cs):
                     continue
                 out.append(spec(factors, {'op': 'nest', 'outer': bo, 'inner': bi, 'constraints': cs}, 'S6'))
+    # (A15: a Nest whose OUTER block has a Transition / Window factor is not generated - how an outer preamble aligns with the inner
+    #  runs under the three alignments is not determined by the documentation, and the two samplers disagree with each other there)
     # inner / outer blocks with a hidden weight factor or an implied derived factor
     Aw = basic('A', 2, [2, 1])
     fmw = {'A': A, 'B': B}
